@@ -17,6 +17,7 @@
  *   HIDE <code>     UNHIDE <code>     REF <code>
  *   MFLUSH                               gd_metaflush only (fragments become clean)
  *   RENAME <code> <new name> <flags hex>   MOVE <code> <frag> <flags hex>   DELETE <code> <flags hex>
+ *   ADDSPEC <line> <frag>   MADDSPEC <line> <parent>   ALTERAFFIX <frag> <px|-> <sx|->   NSALTER <frag> <ns>
  *   PUTS <code> <string>   PUTC <code> <I|U|D> <hex64>   ALTERSPEC <line> <recode>   UNINCLUDE <frag>
  *   FLUSH                                metaflush, dump, close, reopen x2
  *   END
@@ -573,6 +574,15 @@ int main(int argc, char **argv)
       uint64_t v = strtoull(tok[3], NULL, 16);
       gd_type_t t = tok[2][0] == 'I' ? GD_INT64 : tok[2][0] == 'U' ? GD_UINT64 : GD_FLOAT64;
       op(gd_put_constant(D, unhex(tok[1]), t, &v), D);
+    } else if (!strcmp(tok[0], "ADDSPEC")) {
+      op(gd_add_spec(D, unhex(tok[1]), atoi(tok[2])), D);
+    } else if (!strcmp(tok[0], "MADDSPEC")) {
+      op(gd_madd_spec(D, unhex(tok[1]), unhex(tok[2])), D);
+    } else if (!strcmp(tok[0], "ALTERAFFIX")) {
+      op(gd_alter_affixes(D, atoi(tok[1]), unhex(tok[2]), unhex(tok[3])), D);
+    } else if (!strcmp(tok[0], "NSALTER")) {
+      const char *r = gd_fragment_namespace(D, atoi(tok[1]), unhex(tok[2]));
+      op(r ? 0 : -1, D);
     } else if (!strcmp(tok[0], "ALTERSPEC")) {
       op(gd_alter_spec(D, unhex(tok[1]), atoi(tok[2])), D);
     } else if (!strcmp(tok[0], "UNINCLUDE")) {
